@@ -33,7 +33,7 @@ struct TObs {
 /// start_pos is quadratic in the number of tokens
 fn observe_tokens(src: &[u8], positions: bool) -> Result<Option<(Vec<TObs>, bool)>, String> {
     catch(AssertUnwindSafe(|| {
-        let cst = match Parser::new(src).try_into_cst() { Ok(c) => c, Err(_) => return None };
+        let cst = match parse_cst(src) { Ok(c) => c, Err(_) => return None };
         let root = cst.root();
         let root_text_ok = root.text().to_string().as_bytes() == src;
         if !positions { return Some((vec![], root_text_ok)); }
@@ -61,7 +61,7 @@ fn observe_tokens(src: &[u8], positions: bool) -> Result<Option<(Vec<TObs>, bool
 /// every `Span(a..b)` in the Debug rendering of the AST items and errors
 fn ast_spans(src: &[u8]) -> Result<Vec<(u64, u64)>, String> {
     catch(AssertUnwindSafe(|| {
-        let ast = AST::from(Parser::new(src));
+        let ast = parse_ast(src);
         let mut dbg = String::new();
         for item in ast.items() {
             match item {
@@ -90,6 +90,167 @@ fn ast_spans(src: &[u8]) -> Result<Vec<(u64, u64)>, String> {
     }))
 }
 
+// ---------------------------------------------------------------- one parse, several consumers
+// Inputs whose parse takes minutes (the parser's fuel runs out) are parsed once; the CST stream, the CST
+// and the AST are then built from the recorded events through the public constructors that
+// `From<Parser>` uses itself (CSTStream::new, CST::try_from(CSTStream), AST::new).
+thread_local! { static SHARED_RAW: std::cell::RefCell<Option<Vec<Event>>> = const { std::cell::RefCell::new(None) }; }
+fn clone_events(v: &[Event]) -> Vec<Event> {
+    v.iter().map(|e| match e {
+        Event::Begin { kind, span } => Event::Begin { kind: *kind, span: span.clone() },
+        Event::End { kind, span } => Event::End { kind: *kind, span: span.clone() },
+        Event::Token { kind, span } => Event::Token { kind: *kind, span: span.clone() },
+        Event::Error { message, span } => Event::Error { message: message.clone(), span: span.clone() },
+    }).collect()
+}
+fn shared() -> Option<Vec<Event>> { SHARED_RAW.with(|r| r.borrow().as_ref().map(|v| clone_events(v))) }
+fn parse_cst_events(src: &[u8]) -> Vec<Event> {
+    match shared() { Some(r) => CSTStream::new(src, r.into_iter()).collect(), None => CSTStream::from(Parser::new(src)).collect() }
+}
+fn parse_cst(src: &[u8]) -> Result<yara_x_parser::cst::CST, std::str::Utf8Error> {
+    match shared() { Some(r) => yara_x_parser::cst::CST::try_from(CSTStream::new(src, r.into_iter())), None => Parser::new(src).try_into_cst() }
+}
+fn parse_ast(src: &[u8]) -> AST<'_> {
+    match shared() { Some(r) => AST::new(src, r.into_iter()), None => AST::from(Parser::new(src)) }
+}
+
+// ---------------------------------------------------------------- structure of the AST
+/// One node of the AST as rendered by `{:?}`: a struct / enum variant. `own` = it has a `span` field (or a
+/// Span in its tuple payload); otherwise its span is the hull of its children. Children are in field order.
+#[derive(Debug, Default)]
+struct DNode { name: String, own: Option<(usize, usize)>, extra: Vec<(usize, usize)>, strs: Vec<(String, String)>, kids: Vec<DNode> }
+
+struct DParser<'a> { s: &'a [u8], i: usize }
+impl<'a> DParser<'a> {
+    fn ws(&mut self) { while self.i < self.s.len() && (self.s[self.i] == b' ' || self.s[self.i] == b'\n') { self.i += 1; } }
+    fn peek(&mut self) -> u8 { self.ws(); if self.i < self.s.len() { self.s[self.i] } else { 0 } }
+    fn string(&mut self) -> String {
+        // self.s[self.i] == b'"' ; Rust Debug escapes
+        self.i += 1; let mut out = String::new(); let b = self.s;
+        while self.i < b.len() && b[self.i] != b'"' {
+            if b[self.i] == b'\\' && self.i + 1 < b.len() {
+                self.i += 1;
+                match b[self.i] {
+                    b'n' => out.push('\n'), b'r' => out.push('\r'), b't' => out.push('\t'), b'0' => out.push('\0'),
+                    b'u' => { let j = self.i + 2; let k = j + b[j..].iter().position(|c| *c == b'}').unwrap_or(0);
+                              if let Some(c) = std::str::from_utf8(&b[j..k]).ok().and_then(|h| u32::from_str_radix(h, 16).ok()).and_then(char::from_u32) { out.push(c); }
+                              self.i = k; }
+                    b'x' => { let h = std::str::from_utf8(&b[self.i + 1..self.i + 3]).unwrap_or("3f"); out.push(u8::from_str_radix(h, 16).unwrap_or(b'?') as char); self.i += 2; }
+                    c => out.push(c as char),
+                }
+                self.i += 1;
+            } else {
+                let st = self.i; self.i += 1; while self.i < b.len() && (b[self.i] & 0xC0) == 0x80 { self.i += 1; }
+                out.push_str(std::str::from_utf8(&b[st..self.i]).unwrap_or("?"));
+            }
+        }
+        self.i += 1; out
+    }
+    /// a value; struct-like things are appended to `into.kids`, spans/strings recorded on `into` under `field`
+    fn value(&mut self, field: &str, into: &mut DNode) {
+        match self.peek() {
+            b'"' => { let v = self.string(); into.strs.push((field.to_string(), v)); }
+            b'(' | b'[' => { // anonymous tuple / list: transparent
+                let close = if self.s[self.i] == b'(' { b')' } else { b']' }; self.i += 1;
+                while self.peek() != close && self.peek() != 0 { self.value(field, into); if self.peek() == b',' { self.i += 1; } }
+                self.i += 1;
+            }
+            _ => {
+                let st = self.i;
+                while self.i < self.s.len() && !b",(){}[]\"".contains(&self.s[self.i]) { self.i += 1; }
+                let atom = std::str::from_utf8(&self.s[st..self.i]).unwrap_or("").trim().to_string();
+                match self.peek() {
+                    b'(' if atom == "Span" => {
+                        self.i += 1; let st = self.i; while self.s[self.i] != b')' { self.i += 1; }
+                        let body = std::str::from_utf8(&self.s[st..self.i]).unwrap_or(""); self.i += 1;
+                        let mut it = body.split(".."); let a = it.next().and_then(|x| x.parse().ok()); let b = it.next().and_then(|x| x.parse().ok());
+                        if let (Some(a), Some(b)) = (a, b) { if field == "span" || field.is_empty() { if into.own.is_none() { into.own = Some((a, b)); } else { into.extra.push((a, b)); } } else { into.extra.push((a, b)); } }
+                    }
+                    b'(' if !atom.is_empty() => { // tuple struct / variant: Name(..)
+                        self.i += 1; let mut n = DNode { name: atom, ..Default::default() };
+                        while self.peek() != b')' && self.peek() != 0 { self.value("", &mut n); if self.peek() == b',' { self.i += 1; } }
+                        self.i += 1; into.kids.push(n);
+                    }
+                    b'{' if !atom.is_empty() => {
+                        self.i += 1; let mut n = DNode { name: atom, ..Default::default() };
+                        while self.peek() != b'}' && self.peek() != 0 {
+                            let st = self.i; while self.i < self.s.len() && self.s[self.i] != b':' { self.i += 1; }
+                            let f = std::str::from_utf8(&self.s[st..self.i]).unwrap_or("").trim().to_string(); self.i += 1;
+                            self.value(&f, &mut n); if self.peek() == b',' { self.i += 1; }
+                        }
+                        self.i += 1; into.kids.push(n);
+                    }
+                    _ => {} // plain atom: number, bool, None, flags
+                }
+            }
+        }
+    }
+}
+
+/// (parent index, has own span, lo, hi, on char boundaries, text at the span is what the node says, previous sibling)
+type ANode = (usize, bool, usize, usize, bool, bool, Option<usize>, bool /* must be covered by its parent */);
+
+/// flatten to preorder; wrappers that carry no span of their own and exactly one child (Some(..), Box-like enum
+/// variants such as Eq(BinaryExpr{..})) are merged with that child
+fn flatten(n: &DNode, parent: Option<usize>, src: &[u8], out: &mut Vec<ANode>, names: &mut Vec<String>) -> Option<(usize, usize, usize)> {
+    if n.own.is_none() && n.kids.len() == 1 && n.extra.is_empty() && n.strs.is_empty() { return flatten(&n.kids[0], parent, src, out, names); }
+    let idx = out.len();
+    out.push((parent.unwrap_or(idx), n.own.is_some(), 0, 0, true, true, None, true));
+    names.push(n.name.clone());
+    let mut lo = usize::MAX; let mut hi = 0usize; let mut prev: Option<usize> = None;
+    for k in &n.kids {
+        if let Some((ki, a, b)) = flatten(k, Some(idx), src, out, names) {
+            out[ki].6 = prev; prev = Some(ki); lo = lo.min(a); hi = hi.max(b);
+            // by design the span of a hex pattern node is its `{ .. }` literal and the span of a base64
+            // modifier is its keyword: identifier / modifiers / alphabet lie outside
+            if matches!(n.name.as_str(), "HexPattern" | "Base64" | "Base64Wide") { out[ki].7 = false; }
+        }
+    }
+    for (a, b) in &n.extra { lo = lo.min(*a); hi = hi.max(*b); }
+    let (a, b) = match n.own { Some(x) => x, None => { if lo == usize::MAX { out.truncate(idx); names.truncate(idx); return None; } (lo, hi) } };
+    let valid = std::str::from_utf8(src).ok();
+    let bnd = match valid { Some(s) => a <= s.len() && b <= s.len() && s.is_char_boundary(a) && s.is_char_boundary(b), None => true };
+    // the text at the span is the identifier / the literal
+    let want = n.strs.iter().find(|(f, _)| (n.name == "Ident" && f == "name") || f == "literal").map(|(_, v)| v.clone());
+    // (an integer literal node keeps its text without the KB/MB suffix)
+    let text_ok = match (&want, n.own) {
+        (Some(w), Some((a, b))) if a <= b && b <= src.len() => if n.name == "LiteralInteger" { src[a..b].starts_with(w.as_bytes()) } else { &src[a..b] == w.as_bytes() },
+        (Some(_), Some(_)) => false, _ => true };
+    out[idx].2 = a; out[idx].3 = b; out[idx].4 = bnd; out[idx].5 = text_ok;
+    Some((idx, a, b))
+}
+
+fn ast_nodes(src: &[u8]) -> Result<(Vec<ANode>, Vec<String>), String> {
+    catch(AssertUnwindSafe(|| {
+        let ast = parse_ast(src);
+        let mut out = vec![]; let mut names = vec![];
+        for item in ast.items() {
+            let dbg = match item {
+                yara_x_parser::ast::Item::Import(i) => format!("{:?}", i),
+                yara_x_parser::ast::Item::Include(i) => format!("{:?}", i),
+                yara_x_parser::ast::Item::Rule(r) => format!("{:?}", r),
+            };
+            let mut root = DNode::default();
+            DParser { s: dbg.as_bytes(), i: 0 }.value("", &mut root);
+            for k in &root.kids { flatten(k, None, src, &mut out, &mut names); }
+        }
+        (out, names)
+    }))
+}
+
+fn ast_node_violations(nodes: &[ANode], names: &[String], len: usize) -> Vec<String> {
+    let mut v = vec![];
+    for (i, n) in nodes.iter().enumerate() {
+        let (p, _own, lo, hi, bnd, text_ok, prev, cover) = *n;
+        if lo > hi || hi > len { v.push(format!("AST node {} span {}..{} is not inside the source ({} bytes)", names[i], lo, hi, len)); continue; }
+        if !bnd { v.push(format!("AST node {} span {}..{} is not on character boundaries", names[i], lo, hi)); }
+        if !text_ok { v.push(format!("the text at the span {}..{} of AST node {} is not the identifier/literal it holds", lo, hi, names[i])); }
+        if cover && p != i && nodes[p].1 && (lo < nodes[p].2 || hi > nodes[p].3) { v.push(format!("AST node {} {}..{} is not covered by its parent {} {}..{}", names[i], lo, hi, names[p], nodes[p].2, nodes[p].3)); }
+        if let Some(j) = prev { if nodes[j].3 > lo { v.push(format!("AST node {} {}..{} starts before its previous sibling {} {}..{} ends", names[i], lo, hi, names[j], nodes[j].2, nodes[j].3)); } }
+    }
+    v
+}
+
 fn main() {
     let args: Vec<String> = std::env::args().skip(1).collect();
     // the parser, the AST builder and the drop of a deep rowan tree recurse: big stack
@@ -101,6 +262,26 @@ fn run(args: &[String]) -> i32 {
     quiet_panics();
     if let Some(hx) = arg_val(args, "--replay-hex") { return replay(&unhex(&hx)); }
     if arg_flag(args, "--tokenizer") { return run_tokenizer(args); }
+    if arg_flag(args, "--ast-survey") {
+        // which structural facts about AST spans hold on the current tree (development aid)
+        let mut rng = Rng::new(arg_u64(args, "--seed", 1));
+        let mut agg: std::collections::BTreeMap<String, (usize, String)> = Default::default();
+        let mut all = corpus(); all.extend(oracle_inputs());
+        for _ in 0..arg_u64(args, "--n", 2000) { all.push(if rng.chance(1, 3) { gen_chainy(&mut rng).into_bytes() } else { gen_source(&mut rng).1 }); }
+        let mut total = 0usize;
+        for src in &all {
+            if let Ok((nodes, names)) = ast_nodes(src) {
+                total += nodes.len();
+                for v in ast_node_violations(&nodes, &names, src.len()) {
+                    let key: String = v.split(|c: char| c.is_ascii_digit()).filter(|p| !p.is_empty() && *p != "..").collect::<Vec<_>>().join("#");
+                    let e = agg.entry(key).or_insert((0, String::from_utf8_lossy(src).chars().take(160).collect())); e.0 += 1;
+                }
+            }
+        }
+        println!("{} sources, {} AST nodes", all.len(), total);
+        for (k, (n, ex)) in agg { println!("{:6} {}\n        e.g. {:?}", n, k, ex); }
+        return 0;
+    }
     let seed = arg_u64(args, "--seed", 1);
     let n = arg_u64(args, "--n", 600) as usize;
     let max_tokens = arg_u64(args, "--max-tokens", 90) as usize;
@@ -112,21 +293,28 @@ fn run(args: &[String]) -> i32 {
     let mut distinct = std::collections::HashSet::new();
     let mut samples = vec![];
     let mut corpus = corpus();
+    corpus.extend(oracle_inputs());
     let mut deep = very_deep_inputs();
     let mut medium = medium_deep_inputs();
+    // nested function calls are parsed in exponential time; 18 levels exhaust the parser's fuel (about 2 minutes)
+    let mut fuel: Vec<Vec<u8>> = if arg_flag(args, "--fuel") { vec![format!("rule a {{condition: {}1{} == 1 }} rule b {{condition: true}}", "f(".repeat(18), ")".repeat(18)).into_bytes()] } else { vec![] };
     let mut attempts = 0usize;
     while shards.total < n && attempts < n * 20 {
         attempts += 1;
         let (stream, src) = if !corpus.is_empty() { ("corpus".to_string(), corpus.remove(0)) }
             else if !medium.is_empty() { shards.flush(); ("medium_deep".to_string(), medium.remove(0)) }   // K with the model parser
             else if !deep.is_empty() { shards.flush(); ("very_deep".to_string(), deep.remove(0)) }   // one shard per very deep case
+            else if !fuel.is_empty() { shards.flush(); ("fuel".to_string(), fuel.remove(0)) }
+            else if rng.chance(1, 6) { ("chains".to_string(), gen_chainy(&mut rng).into_bytes()) }
             else { gen_source(&mut rng) };
-        let very_deep = stream == "very_deep";
+        let very_deep = stream == "very_deep" || stream == "fuel";
         let medium_deep = stream == "medium_deep";
         let raw = catch(AssertUnwindSafe(|| Parser::new(&src).collect::<Vec<Event>>())).ok();
         let ntok = raw.as_ref().map(|v| v.iter().filter(|e| matches!(e, Event::Token { .. })).count()).unwrap_or(0);
         if ntok > max_tokens && !very_deep && !medium_deep { stats.inc("skipped_too_long"); continue; }
-        let cst = catch(AssertUnwindSafe(|| CSTStream::from(Parser::new(&src)).collect::<Vec<Event>>())).ok();
+        let heavy = stream == "fuel";
+        SHARED_RAW.with(|r| *r.borrow_mut() = if heavy { raw.as_ref().map(|v| clone_events(v)) } else { None });
+        let cst = catch(AssertUnwindSafe(|| parse_cst_events(&src))).ok();
         // token texts concatenate to the source
         let texts_ok = raw.as_ref().map(|v| {
             let mut acc: Vec<u8> = vec![];
@@ -148,6 +336,12 @@ fn run(args: &[String]) -> i32 {
         };
         let ast = ast_spans(&src).ok();
         let ast_coq = coq_option(&ast, |v| coq_list(v, |(a, b)| format!("({},{})", a, b)));
+        let (anodes, anames) = ast_nodes(&src).unwrap_or_default();
+        let ast_bad = ast_node_violations(&anodes, &anames, src.len());
+        let anodes_coq = coq_list(&anodes, |n| format!("mkAN {}%nat {} {} {} {} {} {} {}", n.0, coq_bool(n.1), n.2, n.3, coq_bool(n.4), coq_bool(n.5), onat(&n.6), coq_bool(n.7)));
+        let valid_utf8 = std::str::from_utf8(&src).is_ok();
+        let cst_built = catch(AssertUnwindSafe(|| parse_cst(&src).is_ok())).unwrap_or(false);
+        stats.add("ast_nodes", anodes.len() as u64);
 
         stats.inc(&format!("stream_{}", stream));
         stats.inc(&format!("tokens_{}", match ntok { 0 => "0", 1..=9 => "1-9", 10..=29 => "10-29", 30..=59 => "30-59", _ => "60+" }));
@@ -173,11 +367,12 @@ fn run(args: &[String]) -> i32 {
             None
         });
         let own_fail = match &toks { Ok(Some((os, _))) => os.iter().enumerate().filter(|(i, o)| o.at_off != Some(*i) || o.at.iter().any(|a| *a != Some(*i))).count(), _ => 0 };
-        let case = format!("mkCase {} {} {} {} {} {} {} {}", coq_bool(!very_deep), src.len(), coq_events(&raw), coq_events(&cst),
-            coq_bool(texts_ok), coq_bool(root_text_ok), toks_coq, ast_coq);
-        let replay = format!("{{\"index\":{},\"stream\":{},\"source_hex\":\"{}\",\"source_lossy\":{},\"tokens\":{},\"parser_panicked\":{},\"cst_stream_panicked\":{},\"ast_panicked\":{},\"gap\":{},\"texts_ok\":{},\"root_text_ok\":{},\"own_lookup_failures\":{}}}",
+        let case = format!("mkCase {} {} {} {} {} {} {} {} {} {} {}", coq_bool(!very_deep), src.len(), coq_events(&raw), coq_events(&cst),
+            coq_bool(texts_ok), coq_bool(root_text_ok), toks_coq, ast_coq, anodes_coq, coq_bool(valid_utf8), coq_bool(cst_built));
+        let replay = format!("{{\"index\":{},\"stream\":{},\"source_hex\":\"{}\",\"source_lossy\":{},\"tokens\":{},\"parser_panicked\":{},\"cst_stream_panicked\":{},\"ast_panicked\":{},\"gap\":{},\"texts_ok\":{},\"root_text_ok\":{},\"own_lookup_failures\":{},\"valid_utf8\":{},\"cst_built\":{},\"ast_structure\":[{}]}}",
             shards.total, json_str(&stream), hex(&src), json_str(&String::from_utf8_lossy(&src)), ntok,
-            raw.is_none(), cst.is_none(), ast.is_none(), match &gap { Some(g) => json_str(g), None => "null".into() }, texts_ok, root_text_ok, own_fail);
+            raw.is_none(), cst.is_none(), ast.is_none(), match &gap { Some(g) => json_str(g), None => "null".into() }, texts_ok, root_text_ok, own_fail, valid_utf8, cst_built,
+            ast_bad.iter().take(3).map(|b| json_str(b)).collect::<Vec<_>>().join(","));
         if samples.len() < 3 && ntok >= 20 { samples.push(replay.clone()); }
         shards.push(case, replay);
         if very_deep || medium_deep { shards.flush(); }
@@ -303,6 +498,13 @@ fn replay(src: &[u8]) -> i32 {
         Err(e) => bad.push(format!("CST walk panicked: {e}")),
     }
     match ast_spans(src) { Ok(v) => for (a, b) in v { if a > b || b as usize > src.len() { bad.push(format!("AST span {a}..{b} outside the source")); } }, Err(e) => bad.push(format!("AST builder panicked: {e}")) }
+    match ast_nodes(src) {
+        Ok((nodes, names)) => {
+            if std::env::var("C10_DUMP_AST").is_ok() { for (i, n) in nodes.iter().enumerate() { println!("  ast[{i}] {} parent={} own={} {}..{} {:?}", names[i], n.0, n.1, n.2, n.3, String::from_utf8_lossy(&src[n.2.min(src.len())..n.3.min(src.len()).max(n.2.min(src.len()))])); } }
+            bad.extend(ast_node_violations(&nodes, &names, src.len()));
+        }
+        Err(e) => bad.push(format!("AST builder panicked: {e}")),
+    }
     if bad.is_empty() { println!("property holds on this input"); 0 } else { for b in &bad { println!("VIOLATED: {b}"); } 1 }
 }
 
@@ -322,6 +524,71 @@ fn very_deep_inputs() -> Vec<Vec<u8>> {
         format!("rule d {{condition: {}1{} == 1}} rule e {{condition: true}}", "-(".repeat(1600), ")".repeat(1600)).into_bytes(),
         format!("rule d {{condition: {}true}} rule e {{condition: true}}", "(".repeat(1700)).into_bytes(),   // unbalanced
     ]
+}
+
+/// inputs of the reviewer's oracle (seeded/notes/oracle_r4b.rs) that the corpus did not have
+fn oracle_inputs() -> Vec<Vec<u8>> {
+    let s = |x: &str| x.as_bytes().to_vec();
+    let mut v: Vec<Vec<u8>> = vec![
+        s("rule a { condition: true }\n"), s("\u{feff}rule a { condition: true }"), s("rule a {\u{2010} condition: true }"),
+        s("rule a {\u{a0}\u{2003} condition:\u{205f}true }"), s("rule a {\x0c condition: true }"), s("rule a {\0 condition: true }"),
+        s("rule a {\r condition: true }\r"), s("rule a {\r\n condition: true }\r\n"),
+        s("rule a { condition: \"abc"), s("rule a { condition: /abc"), s("rule a { condition: /* abc"),
+        s("rule a { strings: $a = { 01 02"), s("rule a { strings: $a = { 01 ( 02 | zz ) } condition: $a }"),
+        s("rule a { strings: $a = { 01 [1-\u{e9}] 03 } condition: $a }"), s("rule a { strings: $a = { 01 /* c */ 02 // x\n 03 } condition: $a }"),
+        s("rule a { strings: $a = /a[/]b/ condition: $a }"), s("rule a { strings: $a = /ab\\/c/is wide condition: $a }"),
+        s("rule a { strings: $a = \"x\" xor(1-2) base64(\"abc\") private condition: $a }"),
+        s("rule a { meta: a = -1 b = -1.5 c = \"x\\x00\" d = true condition: true }"),
+        s("import \"pe\"\nrule a { condition: pe.sections[0].name == \"x\" and pe.foo.bar[1] == 2 and a.b(1,2).c[3] }"),
+        s("rule a { condition: 1 + 2 * 3 - 4 \\ 5 % 6 | 7 & 8 ^ ~9 << 1 >> 2 == 3 }"), s("rule a { condition: not defined -1 and - - 2 == -(3) }"),
+        s("rule a { condition: for any i in (1..2) : ( i == 1 ) and for all of them : ($) and 2 of ($a*, $b) in (0..10) }"),
+        s("a /* x\n yy */ b /* z */ c"), s("rule a { condition: \"\u{1F600}\" == \"\u{4e2d}\u{e9}\" }"), s("\t\trule\ta\t{\tcondition:\ttrue\t}"),
+        s("rule a : { condition: true }"), s("rule a { condition: (((true))) or ( false"), s("rule a { meta: condition: true }"),
+        s("rule a { strings: condition: true }"), s("rule a { strings: $a = \"x\" foo condition: true }"), s("rule a { condition: x. }"),
+        s("rule a { condition: 1 of ( $a , ) }"), s("rule a { condition: for 1 x in y : ( x "), s("include \"x\" import \"y\" rule"),
+        s("rule"), s("global"), s("private global"), s("rule a { condition: true } // end"), s("rule a { condition: true } /* end"),
+        s("rule a { condition: ruler or rules or conditions }"), s("rule a { condition: 1KB + 2MB + 0x1f + 0o17 + 1_000 + 1.5_0 }"),
+        s("rule a { condition: \"\"\"multi\nline\"\"\" == \"x\" }"), s("rule a { strings: $a = \"\\\u{e9}\" condition: $a }"),
+        s("rule a { strings: $a = \"\\xZZ\" condition: $a }"), s("rule a { strings: $a = /abc/x condition: $a }"),
+        // Unicode whitespace the lexer does not know (known finding: the UNKNOWN token splits the character)
+        s("rule a {\u{2028} condition: true }"), s("rule a {\u{3000} condition: true }"), s("\u{2029}x"), s("\u{1680}"), s("\u{85}"),
+        // deep field access / lookup / call chains
+        s("rule a { condition: a.b.c[0] == 1 and a.b.c.d[0].e == 2 and a.b.c[0].d(e.f[1])[g] }"),
+        s("rule a { condition: x.y.z[1][2].w[3] == a.b(c.d[e.f.g[0]]).h }"),
+    ];
+    for b in [&b"rule a { condition: \"\xff\" == \"a\" }"[..], b"rule a { condition: true } \xe2", b"rule a { condition: true } \xf0\x9f\x98",
+              b"rule a { // \xff\n condition: /* \xfe */ true }", b"rule a { strings: $a = { 01 \xff 02 } condition: $a }",
+              b"rule a { strings: $a = /a\xffb/ condition: $a }", b"rule a\xc3 { condition: true }",
+              b"rule a { strings: $a = { 01 /* \xff */ 02 } condition: $a }", b"rule a { condition: - /*\xff*/ 1 == 0 }"] { v.push(b.to_vec()); }
+    v
+}
+
+/// deep field access / lookup / call chains, operator chains, nested parentheses (call nesting stays shallow:
+/// nested function calls take exponential time, a known finding)
+fn gen_chainy(rng: &mut Rng) -> String {
+    fn chain(rng: &mut Rng, d: u32) -> String {
+        let ids = ["a", "b", "c", "d", "pe", "x1", "_y"];
+        let mut s = rng.pick(&ids).to_string();
+        for _ in 0..(1 + rng.below(6)) {
+            match rng.below(if d == 0 { 3 } else { 6 }) {
+                0 | 1 | 2 => { s.push('.'); s.push_str(*rng.pick(&ids)); }
+                3 | 4 => { s.push('['); s.push_str(&if rng.chance(1, 2) { rng.below(9).to_string() } else { chain(rng, d - 1) }); s.push(']'); }
+                _ => { s.push('.'); s.push_str(*rng.pick(&ids)); s.push('('); if rng.chance(2, 3) { s.push_str(&chain(rng, 0)); if rng.chance(1, 3) { s.push_str(", 1"); } } s.push(')'); }
+            }
+        }
+        s
+    }
+    let mut terms = vec![];
+    for _ in 0..(1 + rng.below(3)) {
+        let t = match rng.below(4) {
+            0 => format!("{} == {}", chain(rng, 2), rng.below(9)),
+            1 => format!("{} + {} * ({} - {}) > 0", chain(rng, 1), chain(rng, 1), chain(rng, 0), rng.below(9)),
+            2 => format!("(({}) or not ({} != 1))", chain(rng, 2), chain(rng, 1)),
+            _ => format!("for any i in ({}, {}) : ( {}[i] == i )", chain(rng, 0), rng.below(9), chain(rng, 1)),
+        };
+        terms.push(t);
+    }
+    format!("rule c {{ condition: {} }}", terms.join(if rng.chance(1, 2) { " and " } else { " or " }))
 }
 
 /// minimized inputs that exercised something once; they run first
